@@ -420,7 +420,7 @@ func (e *env) oneFault(caseID string, dir string, hist gen.History, baseline sna
 }
 
 func body(r *ev.Run) {
-	r.Rule("per history (constructed reorganisations of depth 1..D by equal-work overtaking, heavy sibling, light-then-heavy; branch switches, extensions, orphans, duplicates): the uninterrupted run counts W write calls at the repository interface (AddHeaderToDatabase/UpdateState, each one SQL transaction); then W x {kill-before, kill-after, error-instead} runs, one fault each, plus SQL-level faults (a trigger makes the statement writing the k-th ROW of the headers table abort - every row of multi-row relabel statements, a sample of the single-row ones), followed by restart (database.Init on the same file), invariant checks, and two full redeliveries compared row-for-row with the uninterrupted run. Plus one reorganisation over 520 (thorough: 1030) heights with faults at the last submission's write boundaries and at rows 1, 500, 501, last of both relabelling statements. A seeded sample is repeated with a real SIGKILL of a child process. evaluations = fault runs; distinct = distinct structural cells (fault kind x operation and ordinal inside its submission x writes of that submission x first/middle/last submission x history length class x real-or-in-process kill); non-trivial = all (each has a fault).")
+	r.Rule("per history (constructed reorganisations of depth 1..D by equal-work overtaking, heavy sibling, light-then-heavy; branch switches, extensions, orphans, duplicates): the uninterrupted run counts W write calls at the repository interface (AddHeaderToDatabase/UpdateState, each one SQL transaction); then W x {kill-before, kill-after, error-instead} runs, one fault each, plus SQL-level faults (a trigger makes the statement writing the k-th ROW of the headers table abort - every row of multi-row relabel statements, a sample of the single-row ones), followed by restart (database.Init on the same file), invariant checks, and two full redeliveries compared row-for-row with the uninterrupted run. Plus reorganisations over 520 and 2010 (thorough: 1030 and 2010) heights with faults at the last submission's write boundaries and at rows 1, 500, 501, last of both relabelling statements. A seeded sample is repeated with a real SIGKILL of a child process. evaluations = fault runs; distinct = distinct structural cells (fault kind x operation and ordinal inside its submission x writes of that submission x first/middle/last submission x history length class x real-or-in-process kill); non-trivial = all (each has a fault).")
 	r.Assume("a write boundary is a call of repository.Headers.AddHeaderToDatabase/UpdateState (each is one committed SQL transaction)", "after an injected write error ingestion stops and the service is restarted (weakest reading)", "SQLite only")
 	r.Require("faults_inside_reorg", 10)
 	r.Require("fault_runs_sql-abort", 50)
@@ -432,50 +432,70 @@ func body(r *ev.Run) {
 	realSample := r.Pick(6, 12) // every n-th fault run is repeated with a real SIGKILL
 	// a reorganisation over more than 500 heights: faults at the write boundaries of the last submission and at rows
 	// inside its two relabelling statements (first, around the 500th, last)
-	r.Do("deep/0", func() {
-		caseID := "deep/0"
-		rng := r.Rand(caseID)
-		depth := r.Pick(520, 1030)
-		hist := gen.DeepReorg(rng, rig.Genesis(), 2, depth)
-		dir := filepath.Join(r.Scratch, "c05")
-		_ = os.MkdirAll(dir, 0o755)
-		f0 := &faultCtl{K: -1}
-		st, err := rig.New(rig.Options{Dir: dir, Name: "base.db", NoHTTP: true, WrapHeaders: deco.Wrap(f0.hooks())})
-		if err != nil {
-			r.Violate("harness|rig", err.Error(), caseID, nil)
-			return
-		}
-		for _, h := range hist.Hdrs {
-			if res := st.Add(h); res.Panic != nil || res.Err != nil {
-				r.Count("histories_skipped_uninterrupted_run_fails", 1)
-				st.Destroy()
+	type deepCfg struct {
+		depth int
+		full  bool // all fault points (else: the last write boundary only)
+	}
+	deeps := []deepCfg{{520, true}, {2010, false}}
+	if r.Thorough() {
+		deeps = []deepCfg{{1030, true}, {2010, true}}
+	}
+	for di, dc := range deeps {
+		di, dc := di, dc
+		r.Do(fmt.Sprintf("deep/%d", di), func() {
+			caseID := fmt.Sprintf("deep/%d", di)
+			rng := r.Rand(caseID)
+			depth := dc.depth
+			hist := gen.DeepReorg(rng, rig.Genesis(), 2, depth)
+			dir := filepath.Join(r.Scratch, "c05")
+			_ = os.MkdirAll(dir, 0o755)
+			f0 := &faultCtl{K: -1}
+			st, err := rig.New(rig.Options{Dir: dir, Name: "base.db", NoHTTP: true, WrapHeaders: deco.Wrap(f0.hooks())})
+			if err != nil {
+				r.Violate("harness|rig", err.Error(), caseID, nil)
 				return
 			}
-		}
-		baseline, err := snap.TakeHeaders(st.DB)
-		st.Destroy()
-		if err != nil || baseline.IChain() != "" {
-			r.Count("histories_skipped_uninterrupted_run_fails", 1)
-			return
-		}
-		W := f0.writes
-		for k := W - 3; k < W; k++ {
-			for _, kind := range kinds {
-				e.oneFault(fmt.Sprintf("%s/w%d/%s", caseID, k, kind), dir, hist, baseline, k, kind, false, fmt.Sprintf("write%d-of-3|last-add|deep-reorg", k-(W-3)+1))
+			for _, h := range hist.Hdrs {
+				if res := st.Add(h); res.Panic != nil || res.Err != nil {
+					r.Count("histories_skipped_uninterrupted_run_fails", 1)
+					st.Destroy()
+					return
+				}
+			}
+			baseline, err := snap.TakeHeaders(st.DB)
+			st.Destroy()
+			if err != nil {
+				r.Count("histories_skipped_uninterrupted_run_fails", 1)
+				return
+			}
+			if bad := baseline.IChain(); bad != "" {
+				// "killed after the last write": nothing was interrupted and the store is not a chain
+				r.Violate("ichain-after-uninterrupted-run|deep-reorg", fmt.Sprintf("after a reorganisation over %d heights that nothing interrupted: %s", depth, bad), caseID, map[string]any{"reorganisation_depth": depth})
+				return
+			}
+			W := f0.writes
+			first := W - 3
+			if !dc.full {
+				first = W - 1
+			}
+			for k := first; k < W; k++ {
+				for _, kind := range kinds {
+					e.oneFault(fmt.Sprintf("%s/w%d/%s", caseID, k, kind), dir, hist, baseline, k, kind, false, fmt.Sprintf("write%d-of-3|last-add|deep-reorg", k-(W-3)+1))
+					r.Case("", false)
+				}
+			}
+			rows0 := len(hist.Hdrs) - 1 // rows written before the last submission (one per stored header)
+			for _, j := range []int{0, 1, 499, 500, 501, depth - 1, depth, depth + 1, depth + 499, depth + 500, depth + 501, 2*depth - 1, 2 * depth} {
+				if j > 2*depth || (!dc.full && j != depth+1) {
+					continue
+				}
+				e.oneFault(fmt.Sprintf("%s/row%d/%s", caseID, rows0+j, sqlAbort), dir, hist, baseline, rows0+j, sqlAbort, false, fmt.Sprintf("row%d-of-%d|deep-reorg", j+1, 2*depth+1))
 				r.Case("", false)
+				r.Count("sql_faults_inside_multi_row_statement", 1)
 			}
-		}
-		rows0 := len(hist.Hdrs) - 1 // rows written before the last submission (one per stored header)
-		for _, j := range []int{0, 1, 499, 500, 501, depth - 1, depth, depth + 1, depth + 499, depth + 500, depth + 501, 2*depth - 1, 2 * depth} {
-			if j > 2*depth {
-				continue
-			}
-			e.oneFault(fmt.Sprintf("%s/row%d/%s", caseID, rows0+j, sqlAbort), dir, hist, baseline, rows0+j, sqlAbort, false, fmt.Sprintf("row%d-of-%d|deep-reorg", j+1, 2*depth+1))
-			r.Case("", false)
-			r.Count("sql_faults_inside_multi_row_statement", 1)
-		}
-		r.Count("deep_reorganisations_with_faults", 1)
-	})
+			r.Count("deep_reorganisations_with_faults", 1)
+		})
+	}
 	for i := 0; i < nHist; i++ {
 		caseID := fmt.Sprintf("h/%d", i)
 		r.Do(caseID, func() {
